@@ -504,13 +504,56 @@ fn reference(svc: &Sx, total: &[u8]) -> Sx {
     sx::tagged("ref", vec![status_sx(&r), sx::tagged("out", split_replies(&out)), sx::bs(&tail), sx::bs(rd)])
 }
 
+/// The writer handed to `handle()`: an embedding program may pass any `Write`.  Besides a plain `Vec<u8>` the
+/// cases use a writer that implements nothing but `write`/`flush` (so the provided `write_vectored` and
+/// `write_all` of std apply) and writers that take only a few bytes per call.  Which one a case gets is a
+/// function of its bytes (the case format and the model do not mention it: the reply stream must not depend on it).
+pub struct CaseWriter {
+    pub out: Vec<u8>,
+    pub per_call: Option<usize>,
+}
+
+impl std::io::Write for CaseWriter {
+    fn write(&mut self, buf: &[u8]) -> std::io::Result<usize> {
+        let n = match self.per_call {
+            Some(k) => buf.len().min(k),
+            None => buf.len(),
+        };
+        self.out.extend_from_slice(&buf[..n]);
+        Ok(n)
+    }
+    fn flush(&mut self) -> std::io::Result<()> {
+        Ok(())
+    }
+}
+
+impl std::ops::Deref for CaseWriter {
+    type Target = Vec<u8>;
+    fn deref(&self) -> &Vec<u8> {
+        &self.out
+    }
+}
+
+fn writer_for(total: &[u8]) -> CaseWriter {
+    let h: usize = total.iter().fold(total.len(), |a, b| a.wrapping_mul(31).wrapping_add(*b as usize));
+    let per_call = match h % 6 {
+        0 | 1 => None,
+        2 => Some(1),
+        3 => Some(4096),
+        4 => Some(1024),
+        _ => Some(7),
+    };
+    // (multi-megabyte cases keep whole writes)
+    CaseWriter { out: Vec::new(), per_call: if total.len() > 200_000 { None } else { per_call } }
+}
+
 pub fn run_case(input: &Sx) -> Sx {
     let l = input.as_list().expect("case");
     let mode = l[1].as_atom().unwrap().to_string();
     let built = build_service(&l[2]);
     let chunks: Vec<Vec<u8>> = l[3].as_list().unwrap()[1..].iter().map(|c| c.as_bytes().unwrap()).collect();
     let total: Vec<u8> = chunks.concat();
-    let mut out: Vec<u8> = Vec::new();
+    let mut out = writer_for(&total);
     match mode.as_str() {
         "whole" => {
             let mut rd = ChunkReader::new(chunks);
@@ -1275,6 +1318,30 @@ impl Suite for WireSuite {
                             tags: vec!["script-x-flags".into(), format!("kind:script:{}", name), format!("flags:{}", fl.join("+"))],
                         });
                     }
+                }
+            }
+        }
+        // replies of every length around the sizes at which buffers are usually cut (a reply and its terminator
+        // must arrive whatever its length)
+        {
+            let cfg = &cfgs[1];
+            let ranges: Vec<(usize, usize)> = if ctx.thorough {
+                vec![(0, 80), (440, 560), (960, 1100), (2000, 2100), (4030, 4160), (8120, 8260), (16330, 16440), (65480, 65600)]
+            } else {
+                vec![(960, 1060), (4040, 4120), (8150, 8215)]
+            };
+            for (lo, hi) in ranges {
+                for padlen in lo..hi {
+                    tok += 1;
+                    let t = format!("t{}sz", tok);
+                    let pad = "p".repeat(padlen);
+                    let v = json!({"method":"org.example.s.Run","parameters":{"token": t, "script":[{"op":"reply","p":{"pad": pad, "token": t}}]}});
+                    let mut total = serde_json::to_vec(&v).unwrap();
+                    total.push(0);
+                    let follow = json!({"method":"org.varlink.service.GetInfo","parameters":{"token": format!("t{}fz", tok)}});
+                    total.extend_from_slice(&serde_json::to_vec(&follow).unwrap());
+                    total.push(0);
+                    cases.push(Case { input: mk_case("whole", cfg, &[total.clone()], &total), tags: vec!["reply-size-sweep".into()] });
                 }
             }
         }
